@@ -62,7 +62,7 @@ func c14(w *World) {
 	}
 	var wantIDs []string // in request order
 	nreq := 0
-	bursts := 1 + w.W.Draw(6)
+	bursts := 1 + w.W.Draw(w.Deep(6))
 	for b := 0; b < bursts && len(w.Viol) == 0; b++ {
 		// one burst: several messages delivered back to back, then settle
 		k := 1 + w.W.Draw(5)
